@@ -22,6 +22,8 @@ import (
 	"github.com/ProtonMail/go-crypto/openpgp/packet"
 
 	"github.com/sassoftware/relic/v8/cmdline/shared"
+	clitoken "github.com/sassoftware/relic/v8/cmdline/token"
+	"github.com/sassoftware/relic/v8/config"
 	"github.com/sassoftware/relic/v8/lib/atomicfile"
 	"github.com/sassoftware/relic/v8/lib/binpatch"
 	"github.com/sassoftware/relic/v8/lib/certloader"
@@ -32,6 +34,7 @@ import (
 	"github.com/sassoftware/relic/v8/signers/pgp"
 	"github.com/sassoftware/relic/v8/zz_verif/core"
 	"github.com/sassoftware/relic/v8/zz_verif/simhook"
+	"github.com/sassoftware/relic/v8/zz_verif/world"
 )
 
 func init() {
@@ -83,6 +86,8 @@ type c13Case struct {
 	Result    []byte `json:"-"` // what the "server" returned
 	Mime      string `json:"mime"`
 	Desc      string `json:"desc"`
+	Cli       *signCase `json:"cli,omitempty"`
+	CliKey    string `json:"cli_key,omitempty"`
 	// Valid, when set, recognises complete new contents that differ in
 	// encoding from the fault-free run's bytes (PGP inline falls back to
 	// partial-length framing when it cannot size the input).
@@ -231,6 +236,8 @@ func c13Entry(c *c13Case, in, dest string) error {
 	switch c.Strategy {
 	case "writefile":
 		return atomicfile.WriteFile(dest, c.Result)
+	case "cli":
+		return c13Cli(c, in, dest)
 	}
 	f, err := shared.OpenForPatching(in, dest)
 	if err != nil {
@@ -320,7 +327,7 @@ func pgpSign(content []byte, clearsign bool) []byte {
 func c13Gen(r *core.Run) *c13Case {
 	t := r.T
 	c := &c13Case{}
-	c.Strategy = core.Pick(t, "strategy", "whole", "patch", "writefile", "pgp-detached", "pgp-inline", "pgp-clearsign", "msi", "pe-fixup")
+	c.Strategy = core.Pick(t, "strategy", "whole", "patch", "writefile", "pgp-detached", "pgp-inline", "pgp-clearsign", "msi", "pe-fixup", "cli", "cli")
 	c.DestMode = core.Pick(t, "dest", "other-present", "other-absent", "same", "symlink")
 	sizes := []int{1, 17, 4096, 32 * 1024, 32*1024 + 1, 70000, 200000}
 	c.Mime = "application/octet-stream"
@@ -388,6 +395,42 @@ func c13Gen(r *core.Run) *c13Case {
 		c.In = repoFixture("dummy.msi")
 		c.Result = t.Bytes(1500, "pkcs7")
 		c.Mime = "application/pkcs7-mime"
+	case "cli":
+		// the whole standalone command: relic sign -k key -f in -o out
+		c.Cli = genSignCase(t, "cli", []string{"ps", "pe-coff", "cat", "msi", "jar", "appmanifest", "deb", "cab"})
+		c.In = c.Cli.Input
+		c.CliKey = core.Pick(t, "cli-key", "rsa", "ec")
+		if c.Cli.PGP {
+			c.CliKey = "rsa"
+		}
+		{
+			// signatures are randomised (ECDSA) and some outputs depend on map
+			// order, so "the complete new content" is any file that relic's
+			// verifier accepts with integrity checking, signed by this key
+			cc, keyName := c.Cli, c.CliKey
+			c.Valid = func(b []byte) (ok bool) {
+				// a torn file may even crash a verifier (xmldsig.Verify
+				// dereferences a nil root on a one-byte document): not valid
+				defer func() {
+					if recover() != nil {
+						ok = false
+					}
+				}()
+				sig, err := verifyFileBytes(cc, b, pgpKeyring(), false)
+				if err != nil {
+					return false
+				}
+				want := world.PKI()[map[string]string{"rsa": "sign-rsa-a", "ec": "sign-ec-a"}[keyName]]
+				if cc.PGP {
+					return sig.SignerPgp != nil
+				}
+				return sig.X509Signature != nil && sig.X509Signature.Certificate.Equal(want.Cert)
+			}
+		}
+		if c.DestMode == "same" && (c.Cli.Mod == "msi" || c.Cli.Mod == "ps" || c.Cli.Mod == "pe-coff" || c.Cli.Mod == "cab") {
+			// these are patched in place when the output is the input: exempt
+			c.DestMode = "other-present"
+		}
 	case "pe-fixup":
 		c.In = repoFixture("ClassLibrary1.dll")
 		ps := binpatch.New()
@@ -646,4 +689,44 @@ func c13CheckFinal(r *core.Run, c *c13Case, label, at, errno string, out *c13Out
 	if c.HardLink && !bytes.Equal(out.link, c.In) {
 		r.Failf("C13.link-modified", key, "%s: the other hard link to the input no longer holds the original bytes", what)
 	}
+}
+
+var cliCfgOnce sync.Once
+var cliCfg *config.Config
+
+// c13Cli runs relic's own standalone sign command in-process: real token layer
+// over a file token, transform, sign, apply, fix-up - the complete output phase
+// as a user's process executes it.
+func c13Cli(c *c13Case, in, dest string) error {
+	cliCfgOnce.Do(func() {
+		pki := world.PKI()
+		cliCfg = &config.Config{Tokens: map[string]*config.TokenConfig{"ft": {Type: "file"}}, Keys: map[string]*config.KeyConfig{}}
+		for name, ident := range map[string]string{"rsa": "sign-rsa-a", "ec": "sign-ec-a"} {
+			id := pki[ident]
+			kp := auxPath(name + ".key")
+			must(os.WriteFile(kp, id.KeyPEM(), 0o600))
+			kc := &config.KeyConfig{Token: "ft", KeyFile: kp, X509Certificate: certFile(id)}
+			if name == "rsa" {
+				_, armored := world.PGPEntity(id)
+				pp := auxPath(name + ".pgp")
+				must(os.WriteFile(pp, armored, 0o644))
+				kc.PgpCertificate = pp
+			}
+			cliCfg.Keys[name] = kc
+		}
+		must(cliCfg.Normalize(""))
+		shared.ZZRunLateHooks()
+	})
+	defer useConfig(cliCfg)()
+	resetFlags(shared.RootCmd)
+	clitoken.ZZReset()
+	args := []string{"sign", "-k", c.CliKey, "-f", in, "-o", dest, "-T", c.Cli.SigType}
+	if c.Cli.Digest != "" {
+		args = append(args, "--digest", c.Cli.Digest)
+	}
+	for k, v := range c.Cli.Flags {
+		args = append(args, "--"+k+"="+v[0])
+	}
+	shared.RootCmd.SetArgs(args)
+	return shared.RootCmd.Execute()
 }
